@@ -407,7 +407,9 @@ impl From<Integer> for FixedPoint {
     fn from(value: Integer) -> Self {
         FixedPoint {
             span: value.span,
-            whole: value.value as u64,
+            // Saturate (instead of truncating) so that a value that is too
+            // large is still too large for every consumer
+            whole: u64::try_from(value.value).unwrap_or(u64::MAX),
             femptos: 0,
         }
     }
